@@ -612,6 +612,13 @@ func (p *packerV4) pack(options ...*bgp.MarshallingOption) []*bgp.BGPMessage {
 
 	loop := func(attrsLen int, paths []*Path, cb func([]bgp.PathNLRI)) {
 		max := maxNLRIs(attrsLen)
+		if max < 1 {
+			// the attributes alone leave no room for a prefix: emit one
+			// route per message so that the sender's size check skips and
+			// reports each of them instead of panicking on a negative
+			// budget (or silently dropping them on a zero budget) here
+			max = 1
+		}
 		var nlris []bgp.PathNLRI
 		for {
 			nlris, paths = split(max, paths)
